@@ -21,7 +21,16 @@ import (
 	"oras.land/oras-go/v2/registry/remote/auth"
 )
 
-func init() { domains["C16"] = runC16 }
+func init() {
+	domains["C16"] = func(seed int64, tier string, sc *Script) map[string]any { return runC16(seed, tier, sc, false) }
+	// C17: the same histories with request bodies; what each registry send carries is recorded
+	domains["C17a"] = func(seed int64, tier string, sc *Script) map[string]any { return runC16(seed, tier, sc, true) }
+}
+
+// oneShotBody hides the concrete reader type so that http.NewRequest cannot set GetBody.
+type oneShotBody struct{ io.Reader }
+
+const bodyText = "BODY-0123456789-0123456789-0123456789"
 
 type authNet struct {
 	mu      sync.Mutex
@@ -30,9 +39,10 @@ type authNet struct {
 	out     []string            // recorded requests "to=<host>:<sec>[:F]"
 	leaks   []string
 	hostNum map[string]int
+	withBody bool
 }
 
-func (n *authNet) markers(req *http.Request) string {
+func (n *authNet) markers(req *http.Request, body []byte) string {
 	var found []string
 	check := func(s string) {
 		for _, m := range []string{"PW", "RT", "AT"} {
@@ -50,14 +60,15 @@ func (n *authNet) markers(req *http.Request) string {
 	}
 	a := req.Header.Get("Authorization")
 	check(a)
-	if strings.HasPrefix(a, "Basic ") {
-		if dec, err := base64.StdEncoding.DecodeString(strings.TrimPrefix(a, "Basic ")); err == nil {
+	// whatever the scheme says, the credential part may be base64 of user:password
+	if i := strings.IndexByte(a, ' '); i >= 0 {
+		if dec, err := base64.StdEncoding.DecodeString(strings.TrimSpace(a[i+1:])); err == nil {
 			check(string(dec))
 		}
 	}
 	check(req.URL.RawQuery)
-	if req.Body != nil {
-		b, _ := io.ReadAll(req.Body)
+	if body != nil {
+		b := body
 		if q, err := url.ParseQuery(string(b)); err == nil {
 			for _, vs := range q {
 				for _, v := range vs {
@@ -86,7 +97,16 @@ func (n *authNet) RoundTrip(req *http.Request) (*http.Response, error) {
 	defer n.mu.Unlock()
 	host := req.URL.Host
 	hn := n.hostNum[host]
-	sec := n.markers(req)
+	var body []byte
+	recv := "none"
+	if req.Body != nil && req.Body != http.NoBody {
+		body, _ = io.ReadAll(req.Body)
+		recv = "trunc"
+		if string(body) == bodyText {
+			recv = "full"
+		}
+	}
+	sec := n.markers(req, body)
 	mk := func(code int, body string) *http.Response {
 		return &http.Response{StatusCode: code, Status: fmt.Sprint(code), Header: http.Header{}, Body: io.NopCloser(strings.NewReader(body)), Request: req}
 	}
@@ -97,7 +117,11 @@ func (n *authNet) RoundTrip(req *http.Request) (*http.Response, error) {
 		}
 		return mk(200, fmt.Sprintf(`{"token":%q,"access_token":%q}`, n.fetch, n.fetch)), nil
 	}
-	n.out = append(n.out, fmt.Sprintf("to=%d:%s", hn, sec))
+	if n.withBody {
+		n.out = append(n.out, fmt.Sprintf("to=%d:%s/%s", hn, sec, recv))
+	} else {
+		n.out = append(n.out, fmt.Sprintf("to=%d:%s", hn, sec))
+	}
 	q := n.replies[host]
 	r := "final"
 	if len(q) > 0 {
@@ -123,7 +147,7 @@ func (n *authNet) RoundTrip(req *http.Request) (*http.Response, error) {
 	return resp, nil
 }
 
-func runC16(seed int64, tier string, sc *Script) map[string]any {
+func runC16(seed int64, tier string, sc *Script, withBody bool) map[string]any {
 	rng := rand.New(rand.NewSource(seed))
 	hosts := []string{"", "h1.test", "h2.test", "h3.test", "realm.test"}
 	hostNum := map[string]int{}
@@ -132,9 +156,9 @@ func runC16(seed int64, tier string, sc *Script) map[string]any {
 			hostNum[h] = i
 		}
 	}
-	cases := 60
+	cases := 300
 	if tier == "thorough" {
-		cases = 3000
+		cases = 6000
 	}
 	evals := 0
 	scopePool := []string{"repository:a:pull", "repository:a:push", "repository:a:pull,push", "repository:b:pull", "registry:catalog:*", "repository:a:*"}
@@ -149,7 +173,7 @@ func runC16(seed int64, tier string, sc *Script) map[string]any {
 		for h := 1; h <= 3; h++ {
 			creds[hosts[h]] = credSpec{rng.Intn(4) != 0, rng.Intn(3) == 0, rng.Intn(5) == 0}
 		}
-		net := &authNet{replies: map[string][]string{}, hostNum: hostNum}
+		net := &authNet{replies: map[string][]string{}, hostNum: hostNum, withBody: withBody}
 		client := &auth.Client{
 			Client: &http.Client{Transport: net},
 			Credential: func(ctx context.Context, reg string) (auth.Credential, error) {
@@ -187,7 +211,7 @@ func runC16(seed int64, tier string, sc *Script) map[string]any {
 			return keyNum[k]
 		}
 		tokSeq := 100 * (ci + 1)
-		for step := 0; step < 8; step++ {
+		for step := 0; step < 12; step++ {
 			h := 1 + rng.Intn(3)
 			host := hosts[h]
 			var hints []string
@@ -231,6 +255,20 @@ func runC16(seed int64, tier string, sc *Script) map[string]any {
 			net.fetch = fetch
 			net.out = nil
 			req, _ := http.NewRequestWithContext(ctx, http.MethodGet, "https://"+host+"/v2/a/manifests/x", nil)
+			bodyKind := "none"
+			if withBody {
+				switch rng.Intn(4) {
+				case 0:
+				case 1:
+					bodyKind = "oneshot"
+					req, _ = http.NewRequestWithContext(ctx, http.MethodPut, "https://"+host+"/v2/a/manifests/x", oneShotBody{strings.NewReader(bodyText)})
+					req.ContentLength = int64(len(bodyText))
+				default:
+					bodyKind = "replay"
+					req, _ = http.NewRequestWithContext(ctx, http.MethodPut, "https://"+host+"/v2/a/manifests/x", strings.NewReader(bodyText))
+				}
+				sc.Count("body:" + bodyKind)
+			}
 			resp, err := client.Do(req)
 			if err == nil {
 				resp.Body.Close()
@@ -246,7 +284,12 @@ func runC16(seed int64, tier string, sc *Script) map[string]any {
 			if len(net.out) > 0 {
 				outStr = strings.Join(net.out, " ")
 			}
-			if cacheKind == 0 {
+			if withBody {
+				if cacheKind != 0 {
+					sc.Def("au new")
+				}
+				sc.Op(outStr, "au dob body=%s host=%d hint=%d pw=%d rt=%d at=%d oauth=%d r1=%s r2=%s fetch=%s", bodyKind, h, keyOf(hints), b(cs.pw), b(cs.rt), b(cs.at), b(client.ForceAttemptOAuth2), r1mod, r2mod, fetchMod)
+			} else if cacheKind == 0 {
 				sc.Op(outStr, "au do host=%d hint=%d pw=%d rt=%d at=%d oauth=%d r1=%s r2=%s fetch=%s", h, keyOf(hints), b(cs.pw), b(cs.rt), b(cs.at), b(client.ForceAttemptOAuth2), r1mod, r2mod, fetchMod)
 			} else {
 				// without a cache every Do starts from nothing
@@ -261,6 +304,9 @@ func runC16(seed int64, tier string, sc *Script) map[string]any {
 				var to int
 				var rest string
 				fmt.Sscanf(o, "to=%d:%s", &to, &rest)
+				if i := strings.IndexByte(rest, '/'); i >= 0 {
+					rest = rest[:i]
+				}
 				isFetch := strings.HasSuffix(rest, ":F")
 				for _, m := range strings.Split(strings.TrimSuffix(rest, ":F"), "+") {
 					if len(m) == 3 && (strings.HasPrefix(m, "pw") || strings.HasPrefix(m, "rt") || strings.HasPrefix(m, "at")) {
